@@ -466,6 +466,63 @@ func elemType(t types.Type) types.Type {
 
 // ---- memory ----
 
+// havocLoopCarried: before the one symbolic iteration of a traversal's visitor, every captured variable that the
+// visitor - or a closure stored in a captured variable (a re-check function built once per pass) - assigns is given an
+// unknown value, unless it is an accumulator (slice, map) the evaluator follows by its appends. A flag or a 'current
+// item' shared by all iterations is then not assumed to start an iteration with its declared initial value.
+func (it *Interp) havocLoopCarried(cl *Term, st *State) {
+	seen := map[*ssa.Function]bool{}
+	var visit func(c *Term, depth int)
+	visit = func(c *Term, depth int) {
+		f, ok := c.Fn.(*ssa.Function)
+		if !ok || f == nil || seen[f] || depth > 2 {
+			return
+		}
+		seen[f] = true
+		for i, fv := range f.FreeVars {
+			if i >= len(c.Bind) || c.Bind[i] == nil || c.Bind[i].Op != "cell" {
+				continue
+			}
+			addr := c.Bind[i]
+			cur := it.load(addr, st)
+			if cur != nil && cur.Op == "closure" {
+				visit(cur, depth+1) // a function value kept in a captured variable: its own captures count too
+				continue
+			}
+			et := elemType(fv.Type())
+			switch ut := et.Underlying().(type) {
+			case *types.Slice, *types.Map, *types.Chan, *types.Signature, *types.Interface, *types.Array:
+				continue
+			case *types.Basic:
+				// counters and fill indices (a chunk's length, a tally) are accumulators too: the evaluator's single
+				// iteration starts them at their declared value, like the slices; flags and remembered items are not
+				if ut.Info()&types.IsNumeric != 0 {
+					continue
+				}
+			}
+			written := false
+			for _, ref := range *fv.Referrers() {
+				switch y := ref.(type) {
+				case *ssa.Store:
+					if y.Addr == ssa.Value(fv) {
+						written = true
+					}
+				case *ssa.FieldAddr:
+					for _, r2 := range *y.Referrers() {
+						if st2, isSt := r2.(*ssa.Store); isSt && st2.Addr == ssa.Value(y) {
+							written = true
+						}
+					}
+				}
+			}
+			if written {
+				it.store(addr, Leaf("carried", fv.Name()), st)
+			}
+		}
+	}
+	visit(cl, 0)
+}
+
 func (it *Interp) load(addr *Term, st *State) *Term {
 	switch addr.Op {
 	case "cell":
@@ -1315,6 +1372,9 @@ func (it *Interp) mapOp(fr *frame, c ssa.CallInstruction, meth string, args []*T
 		st.Events = append(st.Events, ev)
 		prev := st.curRng
 		st.curRng = n
+		// the visitor runs once per entry: a variable of the enclosing function that the visitor (or a closure it was
+		// handed) assigns holds, at the start of an arbitrary iteration, whatever an earlier iteration left there
+		it.havocLoopCarried(cl, st)
 		it.call(cl.Fn.(*ssa.Function), []*Term{Leaf("rangekey", fmt.Sprint(n)), Leaf("mapold", fmt.Sprint(n))}, cl.Bind, st, fr.depth+1, func(st2 *State, rets []*Term) {
 			st2.Events = append(st2.Events, Event{Kind: "rangeret", N: n, Ret: rets, Pos: pos})
 			st2.curRng = prev
